@@ -257,8 +257,11 @@ def o_halt(tr):
     if tr.halted:
         why = [l for l in tr.soft if l.startswith(("b panic", "e panic"))]
         reason = why[-1].split(" ", 2)[2] if why else ""
-        if "invalid_coin_denominations" in reason:
-            cls = "denom-change"
+        denoms = set(d.ent_params["denom"] for d in [tr.genesis] + [b["digest"] for b in tr.blocks] if d is not None and d.ent_params)
+        if "invalid_coin_denominations" in reason and len(denoms) > 1:
+            cls = "denom-change"   # the recorded finding: governance changed the enterprise denomination in this history
+        elif "invalid_coin_denominations" in reason:
+            cls = "denom-mismatch-without-parameter-change"
         elif "overflow" in reason:
             cls = "int-overflow"
         else:
@@ -764,9 +767,17 @@ def o_c11_topup(tr):
                     r, sn, before["deposit"][0], before["rate"], before["zero"], before["last"], amt, b["time"], st["deposit"][0], st["zero"], want_zero, st["last"])}
 
 
+BLOCKED_TOKENS = set(t for m in ("Mbond", "Mdist", "Ment", "Mfee", "Mnbond", "Mstr", "Mxfer") for t in (m, "U" + m))
+
+
 def o_c12(tr):
     for prev, b, d in states(tr):
         for tx in b["txs"]:
+            if tx["result"] == "ok":
+                toks = tx["line"].split()
+                for i, w in enumerate(toks[:-1]):
+                    if w == "str.create" and toks[i + 1] in BLOCKED_TOKENS:
+                        yield {"oracle": "stream-to-blocked-receiver", "signature": toks[i + 1][-4:], "detail": "tx %s created a stream to %s, an account the bank never pays: its deposit can never be claimed" % (tx["n"], toks[i + 1])}
             if tx["kinds"] and all(k.startswith("str.") for k in tx["kinds"]) and tx["result"] == "panic":
                 yield {"oracle": "stream-op-panics", "signature": ",".join(tx["kinds"]), "detail": tx["line"][:200]}
 
@@ -995,6 +1006,12 @@ def walks(tr):
     each next one carrying the previous answer's next key, the last answering next=-"""
     out = []; cur = None
     for q in tr.queries:
+        if q["result"] != "ok" and cur is not None:
+            # the request that follows the previous answer's next key is refused: the walk cannot be completed
+            a = kvtoks(q["args"])
+            filt = tuple(x for x in q["args"] if not x.startswith(("key=", "off=", "lim=", "tot=", "rev=")))
+            if (q["kind"], filt, a.get("lim"), a.get("rev"), q["gap"]) == cur["sig"] and a.get("key") == cur["next"] and a.get("off") == "0":
+                out.append(dict(cur, error=q["n"]))
         if q["result"] != "ok" or "items" not in kvtoks(q["toks"]):
             cur = None; continue
         a = kvtoks(q["args"]); r = kvtoks(q["toks"])
@@ -1036,6 +1053,24 @@ def o_c20(tr):
         r = kvtoks(q["toks"])
         if q["result"] == "ok" and r.get("pm", "0") != "0":
             yield {"oracle": "item=point-query", "signature": q["kind"], "detail": "QUERY %s: %s listed items differ from their point queries" % (q["n"], r["pm"])}
+    # a first page (no key) with well-formed filters is never refused, whatever the limit and offset
+    for q in tr.queries:
+        if q["result"] == "ok" or q["kind"] not in ("ent.pos", "wrk.chains", "bcn.beacons", "str.streams", "str.bysender", "str.byreceiver"):
+            continue
+        a = kvtoks(q["args"])
+        if a.get("key") != "-" or not re.match(r"^\d+$", a.get("off", "")) or not re.match(r"^\d+$", a.get("lim", "")):
+            continue
+        filt = [x for x in q["args"] if not x.startswith(("key=", "off=", "lim=", "tot=", "rev="))]
+        vals = [x.split("=", 1)[1] if "=" in x else x for x in filt]
+        if any(not (v == "-" or re.match(r"^([AUL]\d+|U?M[a-z]+|\d+|[A-Za-z0-9~^]+)$", v)) or v == "X" or v.startswith("S") for v in vals):
+            continue
+        if q["kind"] in ("str.bysender", "str.byreceiver") and (not vals or not re.match(r"^([AUL]\d+|U?M[a-z]+)$", vals[0])):
+            continue
+        if q["kind"] in ("wrk.chains", "bcn.beacons") and any(x.startswith("owner=") and not re.match(r"^owner=(-|[AUL]\d+|U?M[a-z]+)$", x) for x in filt):
+            continue
+        if q["kind"] == "ent.pos" and any(x.startswith("purchaser=") and not re.match(r"^purchaser=(-|[AUL]\d+|U?M[a-z]+)$", x) for x in filt):
+            continue
+        yield {"oracle": "first-page-refused", "signature": q["kind"], "detail": "QUERY %s %s %s answers with an error" % (q["n"], q["kind"], " ".join(q["args"]))}
     # offset pages: the page at offset o with limit L is exactly the matching entries number o .. o+L-1 (id-ordered lists)
     for q in tr.queries:
         if q["result"] != "ok" or q["kind"] not in ("ent.pos", "wrk.chains", "bcn.beacons"):
@@ -1062,6 +1097,10 @@ def o_c20(tr):
             yield {"oracle": "pages-partition", "signature": q["kind"] + "/total", "detail": "QUERY %s %s: total %s, matching entries %d" % (q["n"], " ".join(q["args"]), r["total"], len(want))}
     for w in walks(tr):
         kind, filt, lim, rev, gap = w["sig"]
+        if w.get("error"):
+            sig = "reverse-max-limit" if (rev == "1" and lim == str((1 << 64) - 1)) else kind
+            yield {"oracle": "walk-ends-in-error", "signature": sig, "detail": "walk from QUERY %s (%s lim=%s rev=%s): the request carrying next key %s is refused (QUERY %s); items so far %s" % (w["first"], kind, lim, rev, w["next"], w["error"], w["items"][:8])}
+            continue
         if lim in ("0",) or rev == "1" and False:
             continue
         d = digest_at(tr, gap)
